@@ -75,7 +75,7 @@ func (e *rvEnv) MemByte(k expr.Key, addr *big.Int) byte {
 }
 
 var (
-	csrMapMu   sync.Mutex
+	csrMapMu    sync.Mutex
 	csrNumToKey = map[uint32]expr.Key{}
 	csrKeyToNum = map[expr.Key]uint32{}
 )
